@@ -107,6 +107,8 @@ class Clip(Contract):
 
     def stubs(self, P):
         def clip(x, val_min, val_max):
+            from contracts.l2_core import core_assert
+            core_assert(isinstance(val_min, int) and isinstance(val_max, int), 'utils.clip stub: integer bounds (format range)')
             a = P.np.asarray(x)
             xs = elems(a)
             el = [unM(ite(M(e) > val_max, val_max, ite(M(e) < val_min, val_min, M(e)))) for e in xs]
